@@ -949,7 +949,7 @@ def CheckBlock(block, fCheckPoW = True, fCheckMerkleRoot = True, cur_time=None):
             except ValueError as e:
                 raise CheckBlockError("CheckBlock() : " + str(e))
             commit_script = block.vtx[0].vout[index].scriptPubKey
-            if not (6 + 32 <= len(commit_script) <= 6 + 32 + 1):
+            if not (6 + 32 <= len(commit_script)):
                 raise CheckBlockError("CheckBlock() : invalid segwit commitment length")
             commitment = commit_script[6:6 + 32]
             commit = commit_script[6:6 + 32]
